@@ -7,6 +7,9 @@ VERIF = os.path.dirname(os.path.dirname(os.path.abspath(__file__)))
 
 # id -> (technique, level text, level note, design ref)
 CHECKS = {
+    "C07": ("model-based trace oracle: per-channel Rust models of voice templates with unmatchable state shapes, edit histories (insert/delete/replace/nest/constant/compile error) with hot swaps on both runtimes",
+            "Every channel of every sample after every swap is compared bitwise with an independent model of its voice whose state survives a swap exactly when the property says it must; histories of 1-4 edits at dense early and random later swap times, failed compiles injected between samples.",
+            "Voice templates are used at most once per program and survivors are never reordered, so the expected continuation is unambiguous; the models are validated against the uninterrupted run of every case first.", "DESIGN.md §3 C07"),
     "C06": ("differential oracle: swapped run vs uninterrupted run of the same runtime, all split points 0..8(24) + random, 1-4 consecutive swaps, VM payload and the CLI's WASM preparation path",
             "For generated stateful programs every split point in a dense initial range plus random later ones is exercised on both runtimes: n samples, 1-4 hot swaps to a fresh compilation of the same source through the same preparation code the CLI uses, m more samples; the stream must equal the uninterrupted run bit for bit.",
             "dsp inputs are a function of the sample index; programs keep signal state in self/mem/delay only (as the property states).", "DESIGN.md §3 C06"),
